@@ -301,6 +301,8 @@ def run(ctx):
             else:
                 chk.violation("R16.2", name, "%s(%s, %s) returns %s" % (op, show(a), show(b), [show(x)[:60] for x in res[0]]), ents[op]["loc"])
 
+    scalar_values(chk, fb, tab)
+
     # ---- R16.6 cross-kind comparison structure
     chk.rule("R16.6", "Val equality / ordering: same-kind operands compare their payloads; int vs float compares in float after promoting the int (both orders); every other kind pair is false / unordered")
     import re as _re
@@ -369,3 +371,71 @@ def run(ctx):
                     if any(e.get("name") == "is_commutative" for e in st["rv"]["op"]["place"]["proj"]) and not b.get("impl_derived"):
                         readers.append(p)
     chk.note("is_commutative is read by: %s" % sorted(set(readers)))
+
+
+# ---- R16.7 -----------------------------------------------------------------------------------------------
+# what the documentation promises for two scalar operands, as (integer primitive(s), float primitive(s), argument order):
+# the integer case is the checked primitive (an overflow is reported), a float meets an int after promoting the int
+SCALAR = {
+    "+": (("num::CheckedAdd::checked_add",), ("std::ops::Add::add",), "any"),
+    "-": (("num::CheckedSub::checked_sub",), ("std::ops::Sub::sub",), "ab"),
+    "*": (("num::CheckedMul::checked_mul",), ("std::ops::Mul::mul",), "any"),
+    "/": (("num::CheckedDiv::checked_div",), ("std::ops::Div::div",), "ab"),
+    "min": (("std::cmp::Ord::min", "std::cmp::min"), ("num::Float::min",), "any"),
+    "max": (("std::cmp::Ord::max", "std::cmp::max"), ("num::Float::max",), "any"),
+    "|": (("std::ops::BitOr::bitor",), None, "any"),
+    "&": (("std::ops::BitAnd::bitand",), None, "any"),
+    "XOR": (("std::ops::BitXor::bitxor",), None, "any"),
+    "atan2": (None, ("num::Float::atan2",), "ab"),
+}
+
+
+def _strip(v):
+    """payload without the wrappers that do not change the value: `.0(as:Some(x))` (the success of a checked primitive) and
+    the promotion NumCast::from(x)"""
+    while isinstance(v, App):
+        if v.fn == ".0" and len(v.args) == 1 and isinstance(v.args[0], App) and v.args[0].fn == "as:Some" and len(v.args[0].args) == 1:
+            v = v.args[0].args[0]
+        elif v.fn == "num::NumCast::from" and len(v.args) == 1:
+            v = v.args[0]
+        else:
+            break
+    return v
+
+
+def scalar_values(chk, fb, tab, RID="R16.7"):
+    chk.rule(RID, "scalar operands: + - * / min max | & XOR atan2 return exactly the primitive of their name applied to the two operands (checked for integers, after promotion for int with float), in the documented order")
+    n = 0
+    for ent in tab:
+        r = ent["repr"]
+        if ent["apply"] is None or r not in SCALAR:
+            continue
+        ints, floats, order = SCALAR[r]
+        bad = False
+        for ta, tb in (("Int", "Int"), ("Float", "Float"), ("Int", "Float"), ("Float", "Int")):
+            prims = ints if (ta, tb) == ("Int", "Int") else floats
+            if r == "atan2":
+                prims = floats
+            if prims is None:
+                continue
+            ps, err = run_target(fb, ent["apply"], [val_of(ta, "a"), val_of(tb, "b")])
+            if err:
+                chk.unrecognised(RID, "val:%s" % r, err, ent["loc"])
+                bad = True
+                break
+            for p in ps:
+                if p.status != "return" or not isinstance(p.result, Variant) or p.result.variant in ("Error", None):
+                    continue
+                pay = _strip(p.result.fields.get("0")) if p.result.fields.get("0") is not None else None
+                ok = False
+                if isinstance(pay, App) and pay.fn in prims and len(pay.args) == 2:
+                    args = [show(_strip(x)) for x in pay.args]
+                    ok = args == ["a", "b"] or (order == "any" and args == ["b", "a"])
+                if not ok:
+                    bad = True
+                    chk.violation(RID, "val:%s:%s,%s" % (r, ta, tb), "`%s %s %s` returns %s; documented: %s of the two operands%s" % (
+                        ta, r, tb, show(p.result)[:120], " / ".join(x.rsplit("::", 1)[-1] for x in prims), "" if order == "any" else " in this order"), ent["loc"])
+        n += 1
+        if not bad:
+            chk.ok(RID, "scalar value of %s" % r, "", ent["loc"])
+    chk.floor(RID, "operators with a documented scalar primitive", n, 10)
